@@ -783,37 +783,33 @@ def simplify_constrained_range(source: str) -> str:
             if type(comparator.value) is not int:
                 continue
 
+            # A condition on a known bound either tightens it or is implied by it. Either way the
+            # condition is redundant afterwards, whatever order the conditions are visited in.
             if core.match_template(condition, gt_template):
-                if start is not None and comparator.value >= start:
-                    start = comparator.value + 1
+                if start is not None:
+                    start = max(start, comparator.value + 1)
                     redundant_conditions.add(condition)
 
             elif core.match_template(condition, lt_template):
-                if stop is not None and comparator.value <= stop:
-                    stop = comparator.value
+                if stop is not None:
+                    stop = min(stop, comparator.value)
                     redundant_conditions.add(condition)
 
             elif core.match_template(condition, gte_template):
-                if start is not None and comparator.value >= start:
-                    start = comparator.value
+                if start is not None:
+                    start = max(start, comparator.value)
                     redundant_conditions.add(condition)
 
             elif core.match_template(condition, lte_template):
-                if stop is not None and comparator.value < stop:
-                    stop = comparator.value + 1
+                if stop is not None:
+                    stop = min(stop, comparator.value + 1)
                     redundant_conditions.add(condition)
 
             elif core.match_template(condition, eq_template):
-                if start is None or stop is None:
-                    continue
-
-                if start <= comparator.value < stop:
-                    start = comparator.value
-                    stop = comparator.value + 1
-                else:  # Infeasible
-                    start = stop = 0
-
-                redundant_conditions.add(condition)
+                if start is not None and stop is not None:
+                    start = max(start, comparator.value)
+                    stop = min(stop, comparator.value + 1)
+                    redundant_conditions.add(condition)
 
         if start is not None and stop is not None and start >= stop:
             new_comp = ast.comprehension(
